@@ -255,10 +255,13 @@ def build_corpus(run):
     fac = []
     for v in vs:
         for dt in ('DT', 'TM', 'DTM', 'NM', 'SI', 'ST'):
-            for level in (STRICT, TOLERANT):
-                vals = FACTORY_VALUES[dt] if run.thorough else FACTORY_VALUES[dt][:2]
-                for val in vals:
-                    fac.append(['factory', dt, val, v, level])
+            grid = [(level, val) for level in (STRICT, TOLERANT) for val in FACTORY_VALUES[dt]]
+            if not run.thorough:   # valid/STRICT, invalid/TOLERANT (fallback path) and one more, seeded
+                vals = FACTORY_VALUES[dt]
+                grid = [(STRICT, vals[0]), (TOLERANT, vals[1]),
+                        run.rng.choice([(TOLERANT, vals[0]), (STRICT, vals[1]), (STRICT, vals[2]), (TOLERANT, vals[2])])]
+            for level, val in grid:
+                fac.append(['factory', dt, val, v, level])
         for dt in ('FT', 'ID', 'XX'):
             fac.append(['factory', dt, FACTORY_VALUES[dt][0], v, run.rng.choice((STRICT, TOLERANT))])
     fac.append(['factory', 'ST', 'a', '9.9', STRICT])
